@@ -1,5 +1,8 @@
 (* CorrForms.v -- shared correspondence entry for C04 and C08 (harness/src/forms.rs).
-   case: [op; form; elem; N; pan; front; back] *)
+   case: [op; form; elem; N; pan; front; back; mode]
+   elem: 0 Tr (x Tr), 1 u32 (x u32), 2 Tr x u32, 3 u32 x Tr (zip only), 4 Cn (Clone only);
+   mode (how the caller's code fails: own panic / destructor of an argument) does not change
+   what the crate has to do *)
 From GA Require Import Base Codec Builder Iter Functional.
 Local Open Scope Z_scope.
 
@@ -26,7 +29,8 @@ Definition run_forms (case : list Z) : list Z :=
   match case with
   | op :: form :: elem :: n :: pan :: front :: back :: _ =>
     let N := znat n in
-    let tracked := elem =? 0 in
+    let tracked := (elem =? 0) || (elem =? 2) in         (* the (left / only) input is drop-tracked *)
+    let tracked_r := (elem =? 0) || (elem =? 3) in       (* zip: the right input is drop-tracked *)
     let p := if pan <? 0 then None else Some (znat pan) in
     let a := ids_from 0 N in
     let b := ids_from 100 N in
@@ -35,7 +39,7 @@ Definition run_forms (case : list Z) : list Z :=
       enc_outcome o ++ enc_tail calls e
     else if op =? 1 then
       let ol := tracked && ((form =? 9) || (form / 3 =? 0)) in
-      let or_ := tracked && ((form =? 9) || (form mod 3 =? 0)) in
+      let or_ := tracked_r && ((form =? 9) || (form mod 3 =? 0)) in
       let '(o, e, calls) := zip_ ol or_ fresh_id p a b in
       enc_outcome o ++ enc_tail calls e
     else if op =? 2 then
@@ -45,7 +49,9 @@ Definition run_forms (case : list Z) : list Z :=
       let '(o, e, calls) := generate_ N fresh_id p in
       enc_outcome o ++ enc_tail (index_calls calls) e
     else if op =? 4 then
-      let '(o, e, calls) := clone_ fresh_id p a in
+      (* elem 4: no drop glue, Clone::clone observable (adds 2^20) *)
+      let clf := if elem =? 4 then (fun (_ : nat) (r : list Z) => hd 0 r + 1048576) else fresh_id in
+      let '(o, e, calls) := clone_ clf p a in
       enc_outcome o ++ enc_tail calls e
     else if op =? 5 then
       let '(o, e, calls) := default_ N fresh_id p in
